@@ -230,7 +230,7 @@ def gen_lean():
     bits = {"np.uint8": 8, "np.uint16": 16, "np.uint32": 32}
     for cname, lname in (("Sequence", "seqDtypeLadder"), ("AlphabetMapper", "mapperDtypeLadder")):
         L.append(f"/-- `{cname}`'s dtype ladder: (comparison, bound, bits of the unsigned dtype returned), thresholds evaluated. -/")
-        L.append(f"def {lname} : List (String × Nat × Nat) := [" + ", ".join(f'("{op}", {b}, {bits.get(r, 0)})' for op, b, r in ladders[cname]) + "]")
+        L.append(f"def {lname} : List (String × Nat × Nat) := [" + ", ".join(f'("{op}", {b}, {r})' for op, b, r in ladders[cname]) + "]")
     tr = _sf_find(seqtypes, "NucleotideSequence", "translate")
     enc_consts = [n.args[0].value for n in ast.walk(tr) if isinstance(n, ast.Call) and isinstance(n.func, ast.Attribute) and n.func.attr == "encode"
                   and n.args and isinstance(n.args[0], ast.Constant) and isinstance(n.args[0].value, str)]
@@ -315,6 +315,68 @@ class _SfNorm(ast.NodeTransformer):
         self.generic_visit(n)
         return ast.Assign(targets=[n.target], value=n.value, lineno=0) if n.value else None
 
+class _SfSubst(ast.NodeTransformer):
+    def __init__(self, m):
+        self.m = m
+
+    def visit_Name(self, n):
+        return ast.parse(ast.unparse(self.m[n.id]), mode="eval").body if n.id in self.m else n
+
+
+def _sf_inline(fn, helpers, depth=2):
+    """replace statement-level calls of PRIVATE helpers (module functions `_x(...)`, methods `self._x(...)` / `Cls._x(...)`)
+    by the helper's body with its parameters substituted — extracting or merging a private helper is not behaviour.
+    Anything that does not fit the simple pattern is left as it is (never raises)."""
+    if depth == 0:
+        return fn
+
+    def helper_call(call):
+        if not isinstance(call, ast.Call) or call.keywords:
+            return None
+        f = call.func
+        name = f.id if isinstance(f, ast.Name) else f.attr if isinstance(f, ast.Attribute) and isinstance(f.value, ast.Name) else None
+        if not name or not name.startswith("_") or name.startswith("__") or name not in helpers:
+            return None
+        h = helpers[name]
+        ps = [a.arg for a in h.args.args]
+        if isinstance(f, ast.Attribute) and ps and ps[0] in ("self", "cls"):
+            args = [f.value] + list(call.args)
+        else:
+            args = list(call.args)
+        if len(args) != len(ps) or h.args.vararg or h.args.kwarg or h.args.kwonlyargs:
+            return None
+        return h, dict(zip(ps, args))
+
+    class Inl(ast.NodeTransformer):
+        def visit_Expr(self, n):
+            hc = helper_call(n.value)
+            if hc is None:
+                return n
+            h, m = hc
+            body = [ast.parse(ast.unparse(st)).body[0] for st in _sf_strip(h).body]
+            body = [st for st in body if not isinstance(st, ast.Return)]
+            return [_SfSubst(m).visit(st) for st in body] or [ast.Pass()]
+
+        def visit_Assign(self, n):
+            hc = helper_call(n.value)
+            if hc is None:
+                return n
+            h, m = hc
+            body = [ast.parse(ast.unparse(st)).body[0] for st in _sf_strip(h).body]
+            if not body or not isinstance(body[-1], ast.Return) or body[-1].value is None or any(isinstance(x, ast.Return) for st in body[:-1] for x in ast.walk(st)):
+                return n
+            out = [_SfSubst(m).visit(st) for st in body[:-1]]
+            out.append(ast.Assign(targets=n.targets, value=_SfSubst(m).visit(body[-1]).value, lineno=0))
+            return out
+    try:
+        new = Inl().visit(ast.parse(ast.unparse(fn)).body[0])
+        ast.fix_missing_locations(new)
+        new = ast.parse(ast.unparse(new)).body[0]
+        return _sf_inline(new, helpers, depth - 1) if ast.unparse(new) != ast.unparse(fn) else new
+    except Exception:  # noqa: BLE001
+        return fn
+
+
 def _sf_norm(fn):
     fn = _sf_strip(fn)
     fn = _SfNorm(fn).visit(fn)
@@ -333,7 +395,7 @@ def _sf_atoms(e, out):
 
 class _SfFacts(ast.NodeVisitor):
     def __init__(self):
-        self.tests, self.raises, self.consts, self.strs, self.returns, self.cmps = [], [], [], [], [], []
+        self.tests, self.raises, self.consts, self.strs, self.returns, self.cmps, self.ext = [], [], [], [], [], [], []
 
     def visit_Compare(self, n):
         self.cmps.append(ast.unparse(n)); self.generic_visit(n)
@@ -359,6 +421,8 @@ class _SfFacts(ast.NodeVisitor):
                 self.consts.append(type(n.op).__name__ + ("L" if side is n.left else "R") + str(side.value))
         self.generic_visit(n)
     def visit_Call(self, n):
+        if isinstance(n.func, ast.Attribute) and n.func.attr == "extends":
+            self.ext.append(ast.unparse(n))          # which alphabet is asked to extend which — wherever the call stands
         for a in n.args:
             if isinstance(a, ast.Constant) and isinstance(a.value, (str, int)) and not isinstance(a.value, bool):
                 self.strs.append(ast.unparse(n.func).split(".")[-1] + "(" + repr(a.value) + ")")
@@ -370,7 +434,7 @@ class _SfFacts(ast.NodeVisitor):
 
 def _sf_facts(fn, want="trcs"):
     f = _SfFacts(); f.visit(_sf_norm(fn))
-    for name in ("tests", "consts", "strs", "returns", "cmps"):      # repeated evaluation of the same thing is not a fact
+    for name in ("tests", "consts", "strs", "returns", "cmps", "ext"):      # repeated evaluation of the same thing is not a fact
         setattr(f, name, list(dict.fromkeys(getattr(f, name))))
     f.raises = sorted(set(f.raises))                                  # which classes can be raised, not how often
     parts = []
@@ -380,6 +444,7 @@ def _sf_facts(fn, want="trcs"):
     if "s" in want: parts.append("calls=" + ",".join(f.strs))
     if "R" in want: parts.append("returns=" + ",".join(f.returns))
     if "k" in want: parts.append("compares=" + " ; ".join(f.cmps))
+    if "x" in want: parts.append("extends=" + " ; ".join(f.ext))
     return " | ".join(parts)
 
 def _sf_find(tree, cls, name, deco=None):
@@ -435,12 +500,16 @@ def source_facts():
     groups = {"alphabet": [], "sequence": [], "translate": [], "codon": [], "kmer": [], "defaults": []}
 
     def add(group, f, cls, name, want, deco=None, keep=None):
-        txt = _sf_facts(_sf_find(T[f], cls, name, deco), want)
+        helpers = {x.name: x for x in T[f].body if isinstance(x, ast.FunctionDef)}
+        for c in T[f].body:
+            if isinstance(c, ast.ClassDef) and c.name == cls:
+                helpers.update({x.name: x for x in c.body if isinstance(x, ast.FunctionDef) and x.name != name})
+        txt = _sf_facts(_sf_inline(_sf_find(T[f], cls, name, deco), helpers), want)
         if keep:       # pin only the facts that carry the named constants (the rest of the function may be computed differently)
             parts = []
             for part in txt.split(" | "):
                 head, _, body = part.partition("=")
-                if head == "raises":
+                if head not in ("compares", "tests"):
                     parts.append(part)
                 else:
                     parts.append(head + "=" + " ; ".join(x for x in body.split(" ; ") if re.search(keep, x)))
@@ -456,7 +525,7 @@ def source_facts():
     add("alphabet", "alphabet.py", "LetterAlphabet", "decode", "kr")
     add("alphabet", "alphabet.py", "LetterAlphabet", "decode_multiple", "kr")
     add("alphabet", "alphabet.py", "LetterAlphabet", "encode_multiple", "kr")
-    add("alphabet", "alphabet.py", "AlphabetMapper", "__init__", "t")
+    add("alphabet", "alphabet.py", "AlphabetMapper", "__init__", "x")
     add("sequence", "sequence.py", "Sequence", "code", "kr", deco="setter")
     add("sequence", "sequence.py", "Sequence", "__setitem__", "tkr")
     add("sequence", "sequence.py", "Sequence", "__eq__", "t")
@@ -466,7 +535,7 @@ def source_facts():
     add("sequence", "seqtypes.py", "GeneralSequence", "as_type", "tr")
     add("sequence", "seqtypes.py", "NucleotideSequence", "__init__", "t")
     add("sequence", "seqtypes.py", "ProteinSequence", "__init__", "kr")
-    add("translate", "seqtypes.py", "NucleotideSequence", "translate", "krcs")
+    add("translate", "seqtypes.py", "NucleotideSequence", "translate", "krcs", keep=r"% 3|alphabet_unamb|is None|^v == v$")      # how "is there a stop" is asked is not pinned
     add("codon", "codon.py", "CodonTable", "_to_number", "kr")
     add("codon", "codon.py", "CodonTable", "__init__", "kr", keep=r"!= 3|== -1")
     add("codon", "codon.py", "CodonTable", "map_codon_codes", "kr")
@@ -499,37 +568,58 @@ def source_facts():
         groups["defaults"].append((f"{cls}.{name}", _sf_defaults(_sf_find(T[f], cls, name))))
     m = re.search(r"def __init__\(self, base_alphabet, k, spacing=(\w+)\)", kmer)
     groups["defaults"].append(("KmerAlphabet.__init__", "spacing=" + (m.group(1) if m else "?")))
-    # the dtype ladder of Sequence.dtype / AlphabetMapper._dtype with the private thresholds evaluated
+    # the dtype ladder of Sequence.dtype / AlphabetMapper._dtype: the function is found by what it mentions (a staticmethod of
+    # one parameter naming np.uint8 … np.uint64) and then EVALUATED on probe sizes, so an elif chain, early returns or a loop
+    # over the dtypes give the same ladder; a changed bound or operator gives another one.  Never raises: an unreadable
+    # ladder is emitted as [] and breaks the named obligation C03_gen_dtype_ladder.
     import numpy as np
-    ladders = {}
-    for f, cls, finder in (("sequence.py", "Sequence", None), ("alphabet.py", "AlphabetMapper", None)):
-        tree = T[f]
-        c = [x for x in tree.body if isinstance(x, ast.ClassDef) and x.name == cls][0]
-        lad = None
-        for fn in c.body:            # found by what it contains: a staticmethod returning np.uint8 … np.uint64 behind `<=` tests
-            if isinstance(fn, ast.FunctionDef) and any("staticmethod" in ast.unparse(d) for d in fn.decorator_list):
-                rets = [ast.unparse(r.value) for r in ast.walk(fn) if isinstance(r, ast.Return) and r.value is not None]
-                if [r for r in rets if r.startswith("np.uint")] and len(rets) == 4:
-                    env = {"np": np}
-                    for scope in (tree.body, fn.body):
-                        for st in scope:
-                            if isinstance(st, ast.Assign) and len(st.targets) == 1 and isinstance(st.targets[0], ast.Name):
-                                try:
-                                    env[st.targets[0].id] = eval(compile(ast.Expression(st.value), "<const>", "eval"), {"__builtins__": {}}, env)
-                                except Exception:  # noqa: BLE001
-                                    pass
-                    steps = []
-                    for node in ast.walk(fn):
-                        if isinstance(node, ast.If) and isinstance(node.test, ast.Compare) and len(node.test.ops) == 1:
-                            ret = [r for r in node.body if isinstance(r, ast.Return)]
-                            if ret:
-                                bound = eval(compile(ast.Expression(node.test.comparators[0]), "<bound>", "eval"), {"__builtins__": {}}, env)
-                                steps.append((node.test.lineno, type(node.test.ops[0]).__name__, int(bound), ast.unparse(ret[0].value)))
-                    steps.sort()
-                    lad = [(op, b, r) for _, op, b, r in steps]
-        if not lad or len(lad) != 3:
-            raise ValueError(f"dtype ladder of {cls} not found")
-        ladders[cls] = lad
+
+    def ladder_of(tree, cls):
+        try:
+            c = [x for x in tree.body if isinstance(x, ast.ClassDef) and x.name == cls][0]
+            cands = [fn for fn in c.body if isinstance(fn, ast.FunctionDef) and any("staticmethod" in ast.unparse(d) for d in fn.decorator_list)
+                     and len(fn.args.args) == 1 and "uint8" in ast.unparse(fn) and "uint64" in ast.unparse(fn)]
+            if len(cands) != 1:
+                return []
+            fn = ast.parse(ast.unparse(cands[0])).body[0]
+            fn.decorator_list = []
+            env = {"np": np}
+            for st in tree.body:
+                if isinstance(st, ast.Assign) and len(st.targets) == 1 and isinstance(st.targets[0], ast.Name):
+                    try:
+                        env[st.targets[0].id] = eval(compile(ast.Expression(st.value), "<const>", "eval"), {"__builtins__": {}}, env)
+                    except Exception:  # noqa: BLE001
+                        pass
+            mod = ast.Module(body=[fn], type_ignores=[])
+            ast.fix_missing_locations(mod)
+            exec(compile(mod, "<ladder>", "exec"), env)
+            f = env[fn.name]
+
+            def bits(n):
+                return np.dtype(f(n)).itemsize * 8
+            lad = []
+            for b in (2 ** 8, 2 ** 16, 2 ** 32):
+                lo, at, hi = bits(b - 1), bits(b), bits(b + 1)
+                if lo == at and at < hi:
+                    lad.append(("LtE", b, at))
+                elif lo < at and at == hi:
+                    lad.append(("Lt", b, lo))
+                else:
+                    return []
+
+            def ref(n):
+                for op, b, w in lad:
+                    if (n <= b) if op == "LtE" else (n < b):
+                        return w
+                return 64
+            for n in (1, 2, 94, 200, 300, 1000, 70000, 2 ** 31, 2 ** 33, 2 ** 40, 2 ** 63):
+                if bits(n) != ref(n):
+                    return []
+            return lad
+        except Exception:  # noqa: BLE001
+            return []
+
+    ladders = {"Sequence": ladder_of(T["sequence.py"], "Sequence"), "AlphabetMapper": ladder_of(T["alphabet.py"], "AlphabetMapper")}
     return groups, ladders
 
 
